@@ -46,6 +46,7 @@ package varint
 // ---- unpacking
 
 //@ func Unpack8
+//@   ensures r2 == nil ==> r1 == vlen(uint64(r0))
 //@   ensures r2 == nil ==> r1 == termL(blob) + 1 && hasVarint(blob) && uint64(r0) == dec(blob, r1)
 //@   ensures !hasVarint(blob) || dec(blob, termL(blob) + 1) > 255 ==> r2 != nil
 //@   ensures forall v uint8 :: isEnc(blob, uint64(v)) ==> r2 == nil && r0 == v && r1 == vlen(uint64(v))
